@@ -88,8 +88,21 @@ func c13Slots() []c13Program {
 			return "T | join (R | join kind=inner (C | " + rs.pre + e + rs.post + ") on k) on k"
 		})
 	}
+	// output names assigned twice in one operator: the earlier expression is still an expression of the program
+	add("extend-reassigned", false, false, func(e string) string {
+		return "T | where a > 1 | extend x = " + e + ", n = a + 1, x = isnull(b) | take 5"
+	})
+	add("project-reassigned", false, false, func(e string) string { return "T | project x = " + e + ", b, x = a" })
+	add("summarize-reassigned", false, false, func(e string) string { return "T | summarize x = max(" + e + "), x = count() by b" })
+	add("summarize-key-reassigned", false, false, func(e string) string { return "T | summarize count() by k = " + e + ", k = b" })
+	add("sort-repeated", false, false, func(e string) string { return "T | sort by " + e + ", b, " + e })
+	add("right-side-extend-reassigned", false, false, func(e string) string { return "T | join kind=inner (U | extend w = " + e + ", w = v) on k | count" })
 	add("let-value", false, true, func(e string) string { return "let v = " + e + "; T | take 5" })
 	add("let-value-second", false, true, func(e string) string { return "let u = 1; let v = u + " + e + "; T | where a > v" })
+	add("let-value-after-bindings", false, true, func(e string) string {
+		return "let p = 1; let q = 2; let v = (q - p) * " + e + "; T | extend y = v | take 3"
+	})
+	add("let-value-reassigned", false, true, func(e string) string { return "let v = " + e + "; let v = 2; T | take v" })
 	return out
 }
 
@@ -111,6 +124,22 @@ func c13Wrappers(closed bool) []func(string) string {
 		func(e string) string { return "f(g(h(1, 2, " + e + ")))" },
 		func(e string) string { return "g(" + e + ")[1]" },
 		func(e string) string { return "g(1)[" + e + "]" },
+		// shapes an optimiser might special-case (the planted calls have the arguments 1, 2, ...)
+		func(e string) string { return "iff(" + e + ", 0, 1)" },
+		func(e string) string { return "iff(" + e + ", 1, 0)" },
+		func(e string) string { return "iif(" + e + ", 1, 1)" },
+		func(e string) string { return "iff(isnull(1), 1, " + e + ")" },
+		func(e string) string { return "iff(isnotnull(1), " + e + ", 1)" },
+		func(e string) string { return "not(not(" + e + "))" },
+		func(e string) string { return "not(" + e + " == 1)" },
+		func(e string) string { return e + " == true" },
+		func(e string) string { return "tolower(toupper(strcat(" + e + ")))" },
+		func(e string) string { return e + " + 0" },
+		func(e string) string { return "1 * " + e },
+		func(e string) string { return "(" + e + " and true) or false" },
+		func(e string) string { return "iff(true, " + e + ", " + e + ")" },
+		func(e string) string { return "(" + e + ") in (" + e + ")" },
+		func(e string) string { return "isnull(" + e + ") or isnotnull(" + e + ")" },
 	}
 	if !closed {
 		w = append(w,
@@ -214,7 +243,7 @@ func c13Main(r *run.Runner) {
 			}
 			// let values must be closed
 			if sl.let {
-				for _, open := range []string{"a", "`a`", "t.a", "`t`.`a`", "a.b.c"} {
+				for _, open := range []string{"a", "`a`", "t.a", "`t`.`a`", "a.b.c", "p.q", "q.p", "p.p", "u.u", "v.v", "p.q.p", "`p`.q", "p.`q`"} {
 					mustFail(w, sl.build(wr(open)), "let-open-identifier")
 				}
 				for _, closed := range []string{"true", "null", "'s'", "1.5", "now()", "f(2)"} {
